@@ -41,6 +41,7 @@ type World struct {
 	ErrIDs     map[*ssa.Global]int
 	LemmaUses  map[string]map[string]bool
 	initPhase  bool
+	concreteMode bool
 }
 
 func LoadWorld(repo string, tags string, overlay map[string][]byte, patterns []string) (*World, error) {
